@@ -126,40 +126,65 @@ class Prepared:
         self.id_offset = 1 if config["alignment"].startswith("dpd") else 0
 
 
-def prepare(rdesc, config) -> Prepared | None:
-    """Build the reaction and a configured builder.  None: no transitions."""
-    import ampform  # noqa: PLC0415
-    from ampform.helicity.align.axisangle import AxisAngleAlignment  # noqa: PLC0415
-    from ampform.helicity.align.dpd import DalitzPlotDecomposition, relabel_edge_ids  # noqa: PLC0415
+def prepare(rdesc, config, relabel: bool | None = None) -> Prepared | None:
+    """Build the reaction and a configured builder.  None: no transitions.
 
+    `relabel`: build on the reaction relabelled with ``relabel_edge_ids`` (final-state ids
+    1..3); default: only for DPD, whose documented precondition it is.
+    """
     rdesc = effective_reaction_desc(rdesc, config)
     built = build_reaction(rdesc)
     if built is None:
         return None
-    notes = []
+    if relabel is None:
+        relabel = config["alignment"].startswith("dpd")
+    reaction, builder = make_builder(built, relabel)
+    prepared = Prepared(built, reaction, builder, config, [])
+    prepared.id_offset = 1 if relabel else 0
+    apply_config(builder, reaction, config, prepared.id_offset, prepared.notes)
+    return prepared
+
+
+def make_builder(built: Built, relabel: bool):
+    import ampform  # noqa: PLC0415
+    from ampform.helicity.align.dpd import relabel_edge_ids  # noqa: PLC0415
+
     reaction = built.reaction
-    align = config["alignment"]
-    if align.startswith("dpd"):
+    if relabel:
         reaction = under_test("relabel_edge_ids", relabel_edge_ids, reaction)
-    builder = under_test("get_builder", ampform.get_builder, reaction)
+    return reaction, under_test("get_builder", ampform.get_builder, reaction)
+
+
+def set_alignment(builder, align: str) -> None:
+    from ampform.helicity.align import NoAlignment  # noqa: PLC0415
+    from ampform.helicity.align.axisangle import AxisAngleAlignment  # noqa: PLC0415
+    from ampform.helicity.align.dpd import DalitzPlotDecomposition  # noqa: PLC0415
+
     if align == "axisangle":
         builder.config.spin_alignment = AxisAngleAlignment()
     elif align.startswith("dpd"):
         builder.config.spin_alignment = DalitzPlotDecomposition(reference_subsystem=int(align[3]))
-    offset = 1 if align.startswith("dpd") else 0
+    else:
+        builder.config.spin_alignment = NoAlignment()
+
+
+def apply_config(builder, reaction, config, offset: int, notes: list) -> None:
+    """Put a builder into the state described by a configuration descriptor."""
+    set_alignment(builder, config["alignment"])
     if config["stable"] is not None:
         builder.config.stable_final_state_ids = [i + offset for i in config["stable"]]
+    else:
+        builder.config.stable_final_state_ids = None
     builder.config.scalar_initial_state_mass = bool(config["scalar_initial"])
     builder.config.use_helicity_couplings = bool(config["helicity_couplings"])
     builder.naming.insert_parent_helicities = bool(config["parent_hel"])
     if config["child_hel"] is not None:
         builder.naming.insert_child_helicities = bool(config["child_hel"])
-    if rdesc["formalism"] == "canonical-helicity":
+    if reaction.formalism == "canonical-helicity":
         builder.naming.insert_ls_combinations = bool(config["ls"])
     if config["permutate"]:
         under_test("permutate_registered_topologies", builder.adapter.permutate_registered_topologies)
     apply_dynamics(builder, reaction, config["dynamics"], notes)
-    return Prepared(built, reaction, builder, config, notes)
 
 
 def decaying_particles(reaction) -> list:
